@@ -35,12 +35,16 @@ RULE = ("cases = random argument trees (attrs instances of 13 classes at every p
         "behaviour-only subclass, a plain dict class over a slotted attrs class, a diamond with plain classes two levels "
         "deep, an attrs subclass of a plain subclass, a slotted attrs class over a plain class over a slotted one, a "
         "plain subclass of a hashable class; list, tuple, namedtuple of 0-3 fields, set, frozenset, dict, OrderedDict, "
-        "int / str / None) to depth 4 (quick) or 5 (thorough), plus targeted streams (namedtuples under retain, "
+        "int / str / None and opaque objects that must be handed through as they are at every position but set "
+        "membership: attrs class objects, other class objects, objects with a catch-all __getattr__, modules, functions, "
+        "object()) to depth 4 (quick) or 5 (thorough), plus targeted streams (namedtuples under retain, "
         "collection / instance dict keys, instances in sets, Attribute-based filters over inherited fields, non-attrs "
         "arguments) x api in {attr.asdict, attr.astuple, attrs.asdict, attrs.astuple} x recurse x "
         "retain_collection_types x filter in {None, include/exclude of types / names / Attributes, name predicate, "
-        "value predicate} x dict_factory in {dict, OrderedDict} / tuple_factory in {tuple, list} x value_serializer in "
-        "{None, wrap everything, wrap scalars} x FAULTS (22% of the cases: the k-th call of value_serializer / filter / "
+        "value predicate}, every filter also answering with truthy / falsy NON-bool verdicts (1/0, 'keep'/None, 'x'/'', "
+        "[0]/[], 0.5/0.0, (None,)/(), objects with scripted __bool__: harness-only, 45% of the filtered cases) "
+        "x dict_factory in {dict, OrderedDict} / tuple_factory in {tuple, list} x value_serializer in "
+        "{None, wrap everything, wrap int/str/None, wrap every non-container non-instance value} x FAULTS (22% of the cases: the k-th call of value_serializer / filter / "
         "dict_factory / tuple_factory raises TypeError / ValueError / KeyError / StopIteration / AttributeError / a "
         "BaseException-only class, k over every existing position and the first missing one, only for calls that "
         "complete without the fault) x HISTORY (7%: a fresh set of classes, or classes that are plain while warm-up "
@@ -50,6 +54,8 @@ RULE = ("cases = random argument trees (attrs instances of 13 classes at every p
         "depend on; non-trivial = the argument holds a container or instance below the "
         "top level; distinct = distinct JSON case")
 ASSUMPTIONS = [
+    "a filter's verdict is read by truthiness: the verdict objects are harness-only variation, the model sees the boolean",
+    "opaque leaf objects are named by (kind, n) tokens; the same token is the same object; they are kept out of sets (identity hash -> iteration order)",
     "faults are injected only into calls that complete without them (decided by a dry run of the real code at generation time), so the injected exception is the only one in play and whether the k-th call exists does not depend on evaluation order; the model counts the calls of each callback (verified for every k by the correspondence)",
     "a StopIteration fault that leaves a generator frame arrives as RuntimeError caused by it (PEP 479, CPython): counted as the fault itself",
     "Python's hashability, == between hashable values, set(...) / dict(...) / namedtuple construction are modelled as small trusted functions (hashable, pyEq, pyColl, pyDict) shared by model and specification and diff-tested here",
@@ -71,6 +77,7 @@ LEVEL_TEXT = (
     "follows the repaired code; K13a/b/c_fixed show that the former witnesses pass and that the model of the "
     "unrepaired code, kept in Proofs/C13Old.lean, fails the specification on each), "
     "C13_sites_agree (asdict's own branches = _asdict_anything: the F10 regression as a theorem), "
+    "C13_other_objects_untouched (class objects, proxies, modules, functions pass through at every position), "
     "C13_instance_by_fields (an instance is converted by its field list = has(type(v)) through the MRO, whatever its "
     "class, at both sites and in astuple), C13_keys / "
     "C13_keys_nested, C13_recurse_off_identity, C13_no_instances_left, C13_container_shapes(+_field), "
@@ -269,16 +276,66 @@ def serializers(fam):
     def ser_wrap_leaf(inst, a, v):
         return ser_wrap(inst, a, v) if _is_scalar(v) else v
 
-    return {"off": None, "wrap": ser_wrap, "wrapLeaf": ser_wrap_leaf}
+    def ser_wrap_atoms(inst, a, v):
+        if type(v) in fam.cid or isinstance(v, (list, tuple, set, frozenset, dict)):
+            return v
+        return ser_wrap(inst, a, v)
+
+    return {"off": None, "wrap": ser_wrap, "wrapLeaf": ser_wrap_leaf, "wrapAtoms": ser_wrap_atoms}
 
 
 # ------------------------------------------------------------------------------------------------ trees <-> objects
 
-def atom_py(a):
+class Anything:
+    """answers every attribute lookup (a dynamic proxy / chainable stub) -- also `__attrs_attrs__`"""
+
+    def __getattr__(self, name):
+        return (name,)
+
+
+class PlainCls:
+    pass
+
+
+def _fn0(x):
+    return x
+
+
+# opaque leaf objects: (kind, n) -> object.  kind 0: the attrs class object with id n (of the case's family),
+# 1: other class objects, 2: objects with a catch-all __getattr__ (one per (case, n)), 3: modules, 4: functions,
+# 5: plain object() instances (one per (case, n))
+OPAQUE = {
+    1: [int, PlainCls, dict, collections.OrderedDict, Mixin],
+    3: [collections, json],
+    4: [_fn0, (lambda: 0), len],
+}
+OPAQUE_KINDS = [0, 0, 0, 1, 1, 2, 2, 3, 4, 5]
+
+
+def obj_py(kind, n, reg, fam):
+    key = ("obj", kind, n)
+    o = reg.get(key)
+    if o is None:
+        if kind == 0:
+            o = fam.classes[n % NCLS]
+        elif kind == 2:
+            o = Anything()
+        elif kind in OPAQUE:
+            o = OPAQUE[kind][n % len(OPAQUE[kind])]
+        else:
+            o = object()
+        reg[key] = o
+        reg[("rev", id(o))] = (kind, n)
+    return o
+
+
+def atom_py(a, reg=None, fam=None):
     if a == "none":
         return None
     if "int" in a:
         return a["int"]["n"]
+    if "obj" in a:
+        return obj_py(a["obj"]["kind"], a["obj"]["n"], reg if reg is not None else {}, fam or FAMILY0)
     return f"s{a['str']['n']}"
 
 
@@ -300,7 +357,7 @@ def build(node, reg, fam=FAMILY0):
     """tree -> Python value; `reg` maps id(object) -> object for every container / instance built.
     Instances of a class that is still plain (`fam.pending`) are made with `__new__` + setattr."""
     if "atom" in node:
-        return atom_py(node["atom"]["a"])
+        return atom_py(node["atom"]["a"], reg, fam)
     if "inst" in node:
         d = node["inst"]
         cls = fam.classes[d["cls"]]
@@ -360,6 +417,9 @@ def to_out(v, reg, fam=FAMILY0):
     if _is_scalar(v):
         return {"atom": {"a": py_atom(v)}}
     t = type(v)
+    rev = reg.get(("rev", id(v)))
+    if rev is not None:                   # an opaque leaf object of the argument: the very same object
+        return {"atom": {"a": {"obj": {"kind": rev[0], "n": rev[1]}}}}
     same = id(v) in reg
     if t in fam.cid:
         c = fam.cid[t]
@@ -434,6 +494,11 @@ def roundtrip_applies(case):
     return d["hsh"] is None and all("atom" in x and not f["name"].startswith("_") and f["init"] for f, x in d["fields"])
 
 
+# what a predicate filter may answer instead of True / False
+VERDICTS = {"bool": None, "int": (1, 0), "none": ("keep", None), "str": ("x", ""), "list": ([0], []),
+            "float": (0.5, 0.0), "scripted": (common.TRUTHY, common.FALSY), "tuple": ((None,), ())}
+
+
 class Abort(BaseException):
     """a fault that `except Exception` does not catch"""
 
@@ -479,6 +544,13 @@ def call(case, inst, fam=FAMILY0, box=None):
     explicit = cfg.get("explicit", True)
     box = box or FaultBox(None, None)
     flt = filter_py(case["filter"], fam)
+    verdict = VERDICTS.get(cfg.get("verdict", "bool"))
+    if flt is not None and verdict is not None:
+        yes, no = verdict
+        pred = flt
+
+        def flt(a, v):                     # same verdicts, given as arbitrary truthy / falsy objects
+            return yes if pred(a, v) else no
     if box.wraps("filter") and flt is not None:
         base_flt = flt
 
@@ -625,6 +697,24 @@ def count_calls(case):
     return ok, box.counts
 
 
+def _opaque_kinds(node, acc):
+    if "atom" in node:
+        a = node["atom"]["a"]
+        if isinstance(a, dict) and "obj" in a:
+            acc.add(a["obj"]["kind"])
+    elif "inst" in node:
+        for _, v in node["inst"]["fields"]:
+            _opaque_kinds(v, acc)
+    elif "coll" in node:
+        for v in node["coll"]["items"]:
+            _opaque_kinds(v, acc)
+    else:
+        for k, v in node["dict"]["items"]:
+            _opaque_kinds(k, acc)
+            _opaque_kinds(v, acc)
+    return acc
+
+
 def _classes_in(node, acc):
     if "inst" in node:
         acc.add(node["inst"]["cls"])
@@ -673,6 +763,10 @@ class Gen:
 
     def atom(self, nostr=False):
         r = self.rng.random()
+        if not nostr and self.rng.random() < 0.07:
+            kind = self.rng.choice(OPAQUE_KINDS)
+            n = self.rng.randrange(NCLS if kind == 0 else len(OPAQUE.get(kind, [0, 1, 2])))
+            return {"atom": {"a": {"obj": {"kind": kind, "n": n}}}}
         if r < 0.12:
             return A_NONE
         if r < 0.6 or nostr:
@@ -722,9 +816,9 @@ class Gen:
 
     def distinct(self, trees):
         """drop members equal (Python ==) to an earlier one"""
-        keep, objs = [], []
+        keep, objs, reg = [], [], {}
         for t in trees:
-            o = build(t, {})
+            o = build(t, reg)
             try:
                 hash(o)
             except TypeError:
@@ -796,10 +890,11 @@ def rand_opts(rng, value):
         "filter": rand_filter(rng),
         "dictFactory": rng.choice(["dict", "dict", "odict"]),
         "tupleFactory": rng.choice(["tuple", "tuple", "list"]),
-        "ser": rng.choice(["off", "off", "wrap", "wrapLeaf", "wrapLeaf"]) if api == "asdict" else "off",
+        "ser": rng.choice(["off", "off", "off", "wrap", "wrapLeaf", "wrapLeaf", "wrapAtoms"]) if api == "asdict" else "off",
         "fault": None,
         "cfg": {"explicit": rng.random() < 0.6, "positional": rng.random() < 0.3, "history": "fixed",
-                "twice": rng.random() < 0.25},
+                "twice": rng.random() < 0.25,
+                "verdict": rng.choice(list(VERDICTS)) if rng.random() < 0.45 else "bool"},
     }
 
 
@@ -998,6 +1093,8 @@ def dist(case, obs):
         "roundtrip": obs.get("roundtrip") if isinstance(obs, dict) else "?",
         "explicit_args": case.get("cfg", {}).get("explicit"),
         "history": case.get("cfg", {}).get("history", "fixed"),
+        "filter_verdict": case.get("cfg", {}).get("verdict", "bool") if case["filter"] != "none" else None,
+        "opaque_leaves": sorted(_opaque_kinds(case["value"], set())),
         "twice": case.get("cfg", {}).get("twice", False),
         "fault_site": (case.get("fault") or {}).get("site"),
         "fault_fired": obs.get("faultFired") if isinstance(obs, dict) else "?",
@@ -1109,7 +1206,7 @@ def _neighbours(case, rng):
                 for retain in (False, True):
                     yield dict(case, api=api, ng=ng, recurse=recurse, retain=retain,
                                ser=case["ser"] if api == "asdict" else "off")
-    for ser in ("off", "wrap", "wrapLeaf"):
+    for ser in ("off", "wrap", "wrapLeaf", "wrapAtoms"):
         if case["api"] == "asdict":
             yield dict(case, ser=ser)
     for _ in range(6):
